@@ -29,3 +29,5 @@ def run(v, tier, seed, replay):
                                 {"program": scen[t], "line": k}, found_input=False, tag="corr-overload")
                     break
         v.coverage["overload_scenarios"] = tags
+    if not replay and not v.violations:
+        c09.run_scenarios(v, {"cancel-split-%d" % k: c09.sc_cancel_split(k) for k in (1, 2, 3)}, with_model=False, jobs=3)
